@@ -1822,3 +1822,34 @@ Proof.
   rewrite (spec_ops_app test (script_of fss1) (map OpRead last2 ++ [OpFlushAll])), (spec_ops_app test (script_of fss1) (map OpRead last1 ++ [OpFlushAll])).
   f_equal. rewrite !spec_ops_reads, Hlast. reflexivity.
 Qed.
+
+(* ================= 14. every event sequence runConnection can see ================= *)
+
+Lemma ops_text_app : forall a b, ops_text (a ++ b) = ops_text a ++ ops_text b.
+Proof.
+  induction a as [|[f| |] a IH]; intros b; cbn [app ops_text]; [reflexivity| |apply IH|apply IH].
+  rewrite IH, app_assoc. reflexivity.
+Qed.
+
+Lemma conn_characterisation_lemma : forall test min_buf limit b evs,
+  test [] = false -> 1 <= limit -> 2 * b + 1 + limit <= Nat.max min_buf (limit * 3) ->
+  seg_bound test b (ops_text (conn_ops evs)) ->
+  exists st', run_ops test (conn_ops evs) (new_mlr min_buf limit) [] =
+              Ok (st', spec_ops test [] (conn_ops evs)).
+Proof.
+  intros test min_buf limit b evs Hnil Hl Hc HB.
+  destruct (conn_ops_shape evs) as (ops & Heq & Hn). rewrite Heq in *.
+  rewrite ops_text_app in HB. cbn [ops_text] in HB. rewrite app_nil_r in HB.
+  apply (script_stream_lemma test min_buf limit b); assumption.
+Qed.
+
+Lemma conn_single_line_lemma : forall test min_buf limit b ls evs,
+  test [] = false -> 1 <= limit -> 2 * b + 1 + limit <= Nat.max min_buf (limit * 3) ->
+  Forall (valid_line test b) ls -> ops_text (conn_ops evs) = unlines ls ->
+  exists st', run_ops test (conn_ops evs) (new_mlr min_buf limit) [] = Ok (st', ls).
+Proof.
+  intros test min_buf limit b ls evs Hnil Hl Hc Hv Ht.
+  destruct (conn_ops_shape evs) as (ops & Heq & Hn). rewrite Heq in *.
+  rewrite ops_text_app in Ht. cbn [ops_text] in Ht. rewrite app_nil_r in Ht.
+  apply (single_line_lemma test min_buf limit b); assumption.
+Qed.
